@@ -398,12 +398,21 @@ def check_C15(tier, seed):
             res.violation(f"the recorded trace contains a row the specification does not produce at that point (event {d['matched'] + 1} of {d['of']}) for query {x['text']!r}", text="trace-row",
                           tags=props.inst_tags(x), replay={"instance": {k: x[k] for k in ("schema", "g", "q", "text", "args")}, "diag": d})
         else: res.drift.append(f"recorded trace of {x['text'][:80]!r} is not a behaviour of Interp: {json.dumps(d)[:300]}")
+    # the repository's own recorded traces (numbers adapter, 134 hand-written queries) replayed WITHOUT a data source: the data is whatever
+    # the recorded adapter returned; each must be a behaviour of Interp in its no-read-ahead configuration (this is the specification of what
+    # interpreter/replay.rs relies on)
+    cxs, cskipped = PI.corpus_instances(wd)
+    cacc, crej, _ = PI.validate(res, cxs, wd, "corpus", cfg="InterpTrace_lazy", shards=2)
+    cby = {x["id"]: x for x in cxs}
+    for iid, d in crej.items():
+        res.drift.append(f"repository trace {cby[iid]['file']} is not a behaviour of Interp: {json.dumps(d)[:300]}")
+    res.notes.update({"corpus_traces": len(cxs), "corpus_traces_accepted": len(cacc), "corpus_skipped": cskipped})
     res.cov["evaluations"] = ntr
     res.cov["distinct_nontrivial"] = nontrivial
-    res.cov["traces_validated_against_impl"] = len(acc)
+    res.cov["traces_validated_against_impl"] = len(acc) + len(cacc)
     res.cov["rule"] = ("every executable instance is run through the repository's AdapterTap; rows must equal the direct run; the trace is serialised to RON, deserialised (must be equal), and replayed by the repository's "
                        "replay::assert_interpreted_results with no data source attached (must reproduce exactly the rows); the same trace, exported event by event, is validated by TLC as a behaviour of spec/Interp.tla "
-                       "(InterpTrace: calls, advances, every projected context, outcomes, rows). distinct non-trivial = distinct instances with at least one row")
+                       "(InterpTrace: calls, advances, every projected context, outcomes, rows); the repository's own *.trace.ron corpus is validated as well, with the data taken from the trace itself. distinct non-trivial = distinct instances with at least one row")
     res.notes.update({"traces": len(txs), "traces_accepted": len(acc), "traces_rejected": len(rej)})
     res.notes["trace_ops_total"] = nops
     return res
